@@ -85,8 +85,9 @@ def backend_class(K: dict) -> type:
         field_equals_field_startswith_expression="{field1}:frefsw:{field2}",
         field_equals_field_endswith_expression="{field1}:frefew:{field2}",
         field_equals_field_contains_expression="{field1}:frefct:{field2}",
-        field_timestamp_part_expression="{field}.{timestamp_part}",
-        timestamp_part_mapping={p: p.name.lower() for p in TimestampPart},
+        # (K.ts = FALSE: a target language that cannot address the parts of a timestamp)
+        field_timestamp_part_expression="{field}.{timestamp_part}" if K.get("ts", True) else None,
+        timestamp_part_mapping={p: p.name.lower() for p in TimestampPart} if K.get("ts", True) else None,
         field_null_expression="{field}:null:",
         field_exists_expression="{field}:exists:",
         field_not_exists_expression="{field}:nexists:" if K.get("nexists", True) else None,
